@@ -264,8 +264,9 @@ PROPS = {
         "sweep": ["agones"],
         "bounded": [("agones", "the watcher event loop inside AgonesDiscoveryAdapter::new (tokio::spawn, select!, the RwLock guard, kube-runtime's watcher stream) is outside "
                      "the verifier's reach: that Apply / InitApply go to apply_server, Delete to remove_target, and that a completed (re-)list replaces the cache is "
-                     "checked only on 12 scripted watch histories (ADDED / MODIFIED / DELETED, 410-Gone re-lists, objects vanishing while the watch is down, "
-                     "unconvertible objects, labels named `state`) served by a loopback mock of the Kubernetes API to the real adapter")],
+                     "checked only on 14 scripted and 16 seeded random watch histories (ADDED / MODIFIED / DELETED, 410-Gone re-lists, paged lists aborted by a failing "
+                     "continuation, objects vanishing while the watch is down, unconvertible objects, labels named `state`, IPv6 addresses) served by a loopback mock "
+                     "of the Kubernetes API to the real adapter")],
         "explanation": "Proved (Verus, functions extracted from /repo on this run): `TryFrom<GameServer> for Target` is Ok exactly for a GameServer with a name, a status, an "
                        "address that parses and at least one port, and then yields that name, (parsed address, first port) and the metadata counters < lists < labels < "
                        "annotations < observed state (whole-map equality; the `state` entry is always the observed state); `apply_server(cache, server)` leaves every "
